@@ -540,6 +540,11 @@ class OptionAlphabet:
                     # 1 and 0 compare equal to True / False in Python
                     "1", "1.0", "1e0", "0.0", "1", "0"]
     NEG_FLOAT_VALUES = ["-0.5", "-1", "-.25", "-10.75"]
+    # spellings argparse only accepts as an explicit `--name=value` (as two
+    # tokens they look like options to it): how repr() writes small and
+    # large negative floats (seeded defect c18z)
+    NEG_FLOAT_EQ_ONLY = ["-1e-05", "-2.5e-1", "-5.", "-1E3", "-1.5e+2",
+                         "-0.5", "-3"]
 
     def __init__(self, app, sub):
         import argparse
@@ -615,6 +620,8 @@ class OptionAlphabet:
                 vals.append(rng.choice(self.STR_VALUES))
         if len(vals) == 1 and rng.random() < 0.12:
             # argparse's other spelling of a long option with one value
+            if k == "float" and rng.random() < 0.5:
+                vals = [rng.choice(self.NEG_FLOAT_EQ_ONLY)]
             return [o["opt"] + "=" + vals[0]]
         return [o["opt"]] + vals
 
